@@ -187,6 +187,16 @@ def dropMap (k : Kernel) (m : XMap) (page : Nat) : Kernel :=
   | .grantAdvance a ms idx rs => unmapRange k a ms idx rs page
   | .grantOnDemand => k
 
+/-- `GuestRegionMmap::new(MmapRegion::from_range(range)?, guest_base)`: the region is consumed; when
+    `guest_base + size` overflows the error is returned and the region just built is dropped -/
+def guestRegionFromRange (r : Req) (guestBase page : Nat) (k : Kernel) (sc : Script) : Except BErr Region × Kernel × Script :=
+  match fromRange r page k sc with
+  | (.error e, k', sc') => (.error e, k', sc')
+  | (.ok reg, k', sc') =>
+    match checkedAdd guestBase reg.size with
+    | none => (.error .invalidGuestRegion, dropMap k' reg.map page, sc')
+    | some _ => (.ok reg, k', sc')
+
 /-- number of fallible system calls a request that passed validation makes when all succeed -/
 def callsNeeded (f : Flags) : Nat :=
   if isForeign f then 2 else if isGrant f then (if mmapInAdvance f then 2 else 0) else 1
